@@ -88,6 +88,19 @@ CLAIMED = {
         "note": "Trusted: the stub's chunk framing (SendXferPacket / TransferPacket layouts written from the template). "
                 "Codec clause of C20 not applicable to this technique.",
     },
+    "C14": {
+        "text": "A scene-generator stub (2 regions, 8 local IDs, 10 full IDs, link sets to depth 3) emits full / compressed / "
+                "terse / cached updates, ObjectProperties(Family), KillObject (multi-block, parents, unknown IDs), "
+                "re-parenting, local-ID reuse, cross-region moves and teardown through a duplicating/reordering/lossy network "
+                "into the real proxy object managers, while an operator issues object requests (some under wait_for "
+                "timeouts). An independent scene-graph model applied to the delivered history is compared after every "
+                "delivered message with both indices, child/parent/orphan links, handler failures and pending-request "
+                "futures (done after kill / creating update / teardown). Precondition (no local ID reuse while live, no "
+                "parent cycle) evaluated on the delivered stream; broken runs stop being judged and are counted.",
+        "design_ref": "DESIGN.md §4 C14",
+        "note": "Trusted: the reference scene-graph model (~120 lines); object message bodies are built with the repo's own "
+                "serializer (as its tests do). Avatars never generated as children; child order not judged.",
+    },
 }
 
 NOT_APPLICABLE = {
